@@ -49,6 +49,20 @@ def Point_MultByCofactor (_v p : P3) : P3 := Point.multByCofactor p
 def Point_Equal (v u : P3) : Nat := Point.equal v u
 def Point_bytesMontgomery (v : P3) (_buf : Bytes) : Bytes := Point.bytesMontgomery v
 
+-- encoders, copies, constructors, coordinate export
+def Point_bytes (v : P3) (_buf : Bytes) : Bytes := Point.bytes v
+def Point_Bytes (v : P3) : Bytes := Point.bytes v
+def Point_BytesMontgomery (v : P3) : Bytes := Point.bytesMontgomery v
+def Point_Set (_v u : P3) : P3 := u
+def NewIdentityPoint : P3 := Point.identity
+def NewGeneratorPoint : P3 := Point.generator
+def Point_extendedCoordinates (v : P3) (_e : Array Fe) : Fe × Fe × Fe × Fe := (v.x, v.y, v.z, v.t)
+
+-- tables.go: table construction (constant-trip loops, unrolled by the translator)
+def projLookupTable_FromP3 (_v : Array Cached) (q : P3) : Array Cached := Point.projTable q
+def affineLookupTable_FromP3 (_v : Array AffineCached) (q : P3) : Array AffineCached := Point.affineTable q
+def nafLookupTable5_FromP3 (_v : Array Cached) (q : P3) : Array Cached := Point.naf5Table q
+
 -- addition chains (constant-trip loops, unrolled by the translator)
 def field_Element_Invert (_v z : Fe) : Fe := Fe.invert z
 def field_Element_Pow22523 (_v x : Fe) : Fe := Fe.pow22523 x
